@@ -32,6 +32,44 @@ P = {
  'C10': dict(tech='static analysis: taint (strong-reference escape) from handler parameters into dispatcher state, weakref-callback resolution, nullness of weak-reference dereference on every path to a delivery',
    text='Static. Decides: no expression holding a strong reference to a handler (the handler, a bound method, a closure over it) is stored into dispatcher state; every weak reference is created with a callback resolving to a method that removes it from both tables; in every listener loop the dereferenced handler passes an `is None` test before the delivery call on every path, and the snapshot iterated holds weak references rather than dereferenced handlers.',
    ref='DESIGN.md section 3 C10'),
+ 'C08': dict(tech='static analysis: PathEval over process() (timer writes, wake comparison, pushes, per-iteration step counting), who-may-write _timer/_wait_queue, abstract evaluation of the sleep guard, C09 typestate for queue multiplicity',
+   text='Static. Decides the timer-discipline premises of the deadline invariant and one-step scheduling: every write of _timer is += dt or = 0; on every path exactly one advance precedes the first wake comparison; resets only after an emptiness test with no push in between; every push stores yielded + _timer; the wake test is _timer >= head.wait_time on the heap head; the heap is mutated only through heapq; records order by wait_time only; the sleep guard equals "not None and > 0" on None/negative/zero/positive; per active-loop iteration at most one next() and exactly one rotate/popleft, right-end appends, one sentinel; a generator is queued exactly once (C09 invariant). The arithmetic from these premises to exact wake frames is the written argument of DESIGN.md appendix C.',
+   ref='DESIGN.md section 3 C08'),
+ 'C09': dict(tech='static analysis: typestate abstract interpretation of start/kill/state from 5 abstract pre-states and of each branch of process(), with havoc at the generator call-out',
+   text='Static. Decides the step case of the representation invariant (queued exactly once <=> known <=> has a promise; pending kill => known; in the heap <=> wait record) for start, kill, state from each of the five invariant states and for one iteration of the wake loop and of the active loop (next() may set the kill mark), the state/exception table (TERMINATED/ACTIVE/PAUSED, ValueError before any mutation, TypeError first), no KeyError-raising bookkeeping, promise value stored before the promise is dropped, re-entrancy safety (no popleft/rotate in start/kill/state, heapify after a heap rebuild, identity filters).',
+   ref='DESIGN.md section 3 C09'),
+ 'C11': dict(tech='static analysis: PathEval over ResourceMap.__setitem__/get/__getitem__ (back-link pairing, layer-complete exclusivity, one lookup plan), ChainMap first-layer operation table, structural clear() rule',
+   text='Static. Decides: every store into maps/handles is accompanied on its path by parent = containing map and key = the name (second loop iteration tells the current map from self); stores into maps pop the name from every handle layer in a completed loop, stores into handles pop it from maps; first-layer-only ChainMap operations on handles are flagged; clear() resets back-links in every layer and of every sub-map before dropping all of them; get and __getitem__ each follow the same lookup plan with a membership test for the last key part, and get has exactly one KeyError handler around the whole walk.',
+   ref='DESIGN.md section 3 C11'),
+ 'C12': dict(tech='static analysis: who-may-call load() over the package, PathEval gate check of Handle.__call__ (flag dominance, ordering), who-may-write the cache state, access-path shape rules',
+   text='Static. Decides: a zero-argument load() call exists only in Handle.__call__ (and super().load() in overrides); on every path of __call__ load runs only on the false edge of the flag test, the result is cached, the flag is set after the load, the cache is returned; the cache state is written only by __call__/clear; clear unsets the flag on every path; cached returns the flag; map, static-map attribute and item access reach the handle call; the static map stores the handles themselves with exactly their names in _handle_names; no subclass overrides the gate; Loop.switch clears exactly the handles its flags name.',
+   ref='DESIGN.md section 3 C12'),
+ 'C13': dict(tech='static analysis: PathEval ordering facts in switch(), plumbing shape rules, interprocedural composition of switch() paths with Loop.switch paths under feasible flag valuations (typestate: instance with pending in-event stays cached until adopted)',
+   text='Static. Decides: switch() loads the target once, dispatches out(from,to) in the left world before disabling it, disables the entered world before dispatching in(from,to) on it, raises last; SwitchWorld stores handle and flags under their names; SimpleLoop.loop catches it around process and forwards them in order; SimpleLoop.switch adopts through Loop.switch and enables afterwards; composing the paths of switch() with those of Loop.switch, no feasible flag valuation clears the target handle between the load that received on_switch_in and its adoption (the alias case target == current handle with clear_current is the open known finding); current_world is the processed instance; dispatcher state is per instance.',
+   ref='DESIGN.md section 3 C13'),
+ 'C14': dict(tech='static analysis: PathEval with exception edges over one iteration of SimpleLoop.loop (def-use of reading/dt/last_timestamp, store-before-process), must-precede of the reset in start, exception-handler inventory, exception-edge check of quit_loop',
+   text='Static. Decides: one clock reading per iteration; dt is 0 on the `last_timestamp is None` edge (identity test) and reading - last_timestamp otherwise; the reading is stored before process runs; current_world.process receives exactly that dt once; SimpleLoop.start resets last_timestamp before entering the loop on every path; only Quit/SwitchWorld are handled in start/loop; the Quit handler sets running false and leaves world and handle; running is set before the loop; quit_loop dispatches on_quit then raises Quit on every path and does not replace an exception escaping the dispatch.',
+   ref='DESIGN.md section 3 C14'),
+ 'C15': dict(tech='static analysis: PathEval forwarding checks (load, populate), structural wiring rules for the transformers, regex ASTs via re._parser, path-wise return analysis of the map functions, write-back aliasing rule',
+   text='Static. Decides: WorldHandle.load disables the new world before the transformers, calls each with (self, world), dispatches on_world_load(self, world) after them, never enables, returns the world; populate makes one add_processor(type(*args, **kwargs)) per processor dict and one create_entity(*components, entity_id=id) per entity dict with one type(*args, **kwargs) per component dict in order; every processor/component dict of the file goes through every configured transformer (copy third, the dict itself fourth; no deep copy of resolved objects) before populating; default processors first, then type/object/resource transformers; the three regexes are <marker>(.+)} applied with match, markers prefix-free; $res subscripts the root map, $handle calls get, everything else passes through; mapped args/kwargs are written back in place; automatic ids never merge with listed ids.',
+   ref='DESIGN.md section 3 C15'),
+ 'C16': dict(tech='static analysis: scope resolution over the package, Optional-by-identity rule, positional agreement of add_rule with the dataclass, PathEval of the population loop body over its boolean atoms',
+   text='Static, modulo the file-system library (see level_note). Decides: no unbound name (the ValueError branch is well formed); None-defaulted options fall back by identity test only; add_rule fills the dataclass fields by position and instantiate forwards (filename, *args, **kwargs); on every path of the loop body the rule directory is join(root, rule.directory_path), missing -> skip, not a directory -> ValueError, files enumerated with iglob(dir/**, recursive=True), filter compares splitext(path)[1] with the rule extensions, key = normalised path relative to root with the extension dropped exactly under trim_extensions and isfile, the same key used for conflict lookups and the store, one factory call and one store per accepted file, new sub-map only for an untaken directory key, new layer exactly under nest_on_conflict and a top-layer hit.',
+   ref='DESIGN.md section 3 C16',
+   note='The central clause (the map mirrors an arbitrary directory tree) depends on glob/os.path and the file system and is decided only modulo "iglob(dir/**, recursive=True) enumerates everything under dir" (dot-files are skipped by it). ' + COMMON_NOTE),
+ 'C17': dict(tech='static analysis: all-paths-raise check of __setattr__/__delattr__, structural mirror rules for get_static_map, unwrap-condition path check',
+   text='Static. Decides: every path through StaticResourceMap.__setattr__/__delattr__ raises and changes nothing; the generated class derives from it, overrides no accessor, and fills itself through object.__setattr__ only; get_static_map stores every visible handle itself and every sub-map recursively under its own name, _handle_names is exactly the handle names, the __dict__ decision looks at the names of both kinds, and a fresh snapshot is built on every call; __getattribute__ calls the stored object iff its name is in _handle_names, get returns it uncalled, __getitem__ is attribute access.',
+   ref='DESIGN.md section 3 C17'),
+ 'C18': dict(tech='static analysis: algebraic value numbering - syntax-directed translation of the loop-free method bodies of desper/math.py to canonical polynomial / rational forms over Q (with rewrite rules for sqrt and sin/cos atoms) compared with checker-generated textbook definitions; ordering enumeration for clamp; constant folding of swizzle index maps',
+   text='Static, exact over the rationals. One obligation per method and output component or identity (about 320): entrywise + - * / neg, scale, lerp, dot, cross, abs/mag/distance radicands, normalize (unit length, direction, zero case), from_magnitude/from_heading/from_polar/rotate length clauses, limit guard (squared length vs squared bound) and branches, clamp on all 18 orderings, swizzle letters/classes (thorough: all 336 strings per class), Mat3/Mat4 + - neg, transpose, row-by-column product, associativity, (A@B)@v = B@(A@v), default matrix two-sided identity, ~M two-sided inverse with determinant guard, from_translation/from_scale/translate/orthogonal_projection as images of generic points / box corners. Float rounding clauses are not decided.',
+   ref='DESIGN.md section 3 C18',
+   note='Trusted: the ast parser, the ~150-line polynomial/rational normal form in dlint/poly.py, the translator of rules/c18.py (tuple slicing, zip, truncating map, sum as in Python), sqrt/sin/cos as the real functions. Float clauses ("up to a rounding tolerance") are not decided: no sound static bound on rounding error is in reach.'),
+ 'C19': dict(tech='static analysis: single-call forwarder rules with positional agreement, descriptor bodies modulo assertions, abstract evaluation of the prototype initialiser lookup over its 4 scenario combinations',
+   text='Static. Decides: each shorthand is exactly one unconditional call of the like-named World method on controller.world with controller.entity first and the other parameters in order, returning the result where there is one, and Controller binds them; Controller handles on_add and records entity and world; every descriptor method is, apart from assertions, exactly the corresponding query/add/remove call with the stored type; Prototype.__iter__ yields one product per listed type in order, built by init_methods[T], else the prefixed method, else _default_init (evaluated for the 4 combinations), each applied to T; OnUpdateProcessor.process is one unconditional dispatch of on_update with dt.',
+   ref='DESIGN.md section 3 C19'),
+ 'C20': dict(tech='static analysis: PathEval value-flow from the stored expression to the dispatch argument in the six setters, event/property correspondence, constructor/setter agreement on the reducing function',
+   text='Static. Decides for each of the six setters, on every path: one store into the backing field the getter returns, then one dispatch of on_<property>_change whose single argument is the stored expression (or a read of the field); no other event; the constructor applies the same reducing function as the setter (2-D rotation % 360); non-constant defaults are not stored bare unless immutable; the event_handler decorator cannot leak a subclass\'s events into its base (cross-talk).',
+   ref='DESIGN.md section 3 C20'),
 }
 NA_REASON = 'check under construction in this round (static rules designed in DESIGN.md section 3); not claimed until it runs'
 def main():
